@@ -5,12 +5,24 @@
   operations it does not know.
 -/
 import DuckModel.Drv.Core
+import DuckModel.Drv.C04
+import DuckModel.Drv.C11
+import DuckModel.Drv.C12
+import DuckModel.Drv.C14
+import DuckModel.Drv.C16
+import DuckModel.Drv.C17
 
 namespace Duck.Driver
 
 /-- add one line per handler module -/
 def handlers : List (List String → Option String) := [
-  Duck.Drv.Core.handle
+  Duck.Drv.Core.handle,
+  Duck.Drv.C04.handle,
+  Duck.Drv.C11.handle,
+  Duck.Drv.C12.handle,
+  Duck.Drv.C14.handle,
+  Duck.Drv.C16.handle,
+  Duck.Drv.C17.handle
 ]
 
 def dispatch (toks : List String) : String :=
